@@ -412,6 +412,8 @@ Definition table : list (Z * (list Z -> res)) :=
     e "int.add"%opname (fun a => match a with [x; ax; y; ay; c] => Ok [int_add_cap (int_in ax x) ax (int_in ay y) ay c] | _ => Panic end);
     e "int.sub"%opname (fun a => match a with [x; ax; y; ay; c] => Ok [int_add_cap (int_in ax x) ax (- int_in ay y) ay c] | _ => Panic end);
     e "int.mul"%opname (fun a => match a with [x; ax; y; ay; c] => Ok [int_mul_cap (int_in ax x) ax (int_in ay y) ay c] | _ => Panic end);
+    e "int.mulsign"%opname (fun a => match a with [x; ax; y; ay] =>
+        let p := int_in ax x * int_in ay y in Ok (b2z (p <? 0) :: cmp3 p 0) | _ => Panic end);
     e "int.neg"%opname (fun a => match a with [x; ax] => Ok [- int_in ax x; Z.abs (int_in ax x)] | _ => Panic end);
     e "int.eucdiv"%opname (fun a => match a with [x; ax; y; ay] =>
         let x := int_in ax x in let y := int_in ay y in
